@@ -72,6 +72,10 @@ type Operation struct {
 	// The commit index at the time the operation was submitted. Only applicable to
 	// linearizable and lease-based read-only operations.
 	readIndex uint64
+
+	// The number of heartbeat rounds that had been started when the operation was
+	// submitted. Only a round started afterwards can verify leadership for it.
+	round uint64
 }
 
 type operationManager struct {
@@ -86,6 +90,9 @@ type operationManager struct {
 
 	// The lease for lease-based reads.
 	leaderLease *lease
+
+	// The number of heartbeat rounds started so far.
+	rounds uint64
 }
 
 func newOperationManager(leaseDuration time.Duration) *operationManager {
@@ -100,6 +107,19 @@ func newOperationManager(leaseDuration time.Duration) *operationManager {
 func (r *operationManager) markAsVerified() {
 	for operation := range r.pendingReadOnly {
 		operation.quorumVerified = true
+	}
+	r.shouldVerifyQuorum = true
+}
+
+// markAsVerifiedByRound marks the read-only operations that were submitted before the
+// heartbeat round with the provided number was started. A majority answering that round
+// proves leadership at some point after those operations were submitted, but says
+// nothing about operations submitted while the round was already in flight.
+func (r *operationManager) markAsVerifiedByRound(round uint64) {
+	for operation := range r.pendingReadOnly {
+		if operation.round < round {
+			operation.quorumVerified = true
+		}
 	}
 	r.shouldVerifyQuorum = true
 }
